@@ -2,6 +2,7 @@
 import ast
 
 from ..model import (AnalysisError, FUNC_TYPES, U, call_attr, call_name, dotted, enclosing, enclosing_function, guard_texts, short, walk_body, parent, const_str, kwarg)
+from ..cfg import CFG
 from ..util import params, find_calls, stmt_of, has_exit, syn_dominates
 from ..posflow import facts_of
 
@@ -93,7 +94,14 @@ def r1_threading(cx):
         pk = "R%d" % par[0]["k"]
         chk(cx, pred[0]["arg"] <= set(["P0", pk]) and par[0]["arg"] <= set(["P0", pk]) and pk in par[0]["arg"], par[0]["node"], "predicate and parser both start at the current position; only the parser advances it",
             "pred origins %s, parser origins %s" % (_fmt(pred[0]["arg"]), _fmt(par[0]["arg"])))
-        chk(cx, par[0]["in_handler"] and pred[0]["in_try"], par[0]["node"], "the parser runs only when the predicate failed", "parser call inside the predicate's except arm")
+        g = CFG(fn)
+        pn, qn = g.stmt_node_containing(pred[0]["node"]), g.stmt_node_containing(par[0]["node"])
+        okp = pn is not None and qn is not None and pred[0]["in_try"] and bool(g.exc_succ.get(pn))
+        if okp:
+            for s0 in g.succ[pn] - g.exc_succ.get(pn, set()):
+                if qn in g.reachable(s0, avoid=[pn]):
+                    okp = False
+        chk(cx, okp, par[0]["node"], "the parser runs only when the predicate failed", "the parser call is not reachable from a successful predicate call (CFG, normal edges)")
         rets = f.returns
         chk(cx, len(rets) == 1 and rets[0]["pos"] <= set(["P0", pk]), rets[0]["node"] if rets else fn, "Until returns the position reached by the parser (the predicate consumes nothing)", "return position origins %s" % (_fmt(rets[0]["pos"]) if rets else "?"))
 
@@ -297,7 +305,22 @@ def r3_taglang(cx):
     cx.require(bool(lp) and U(lp[0].iter) == "rest" and not has_exit(lp[0].body), op, "every operator/operand pair is folded", construct=short(lp[0], 100) if lp else "?")
     ng = m.func("negate", "C19.R3")
     rets = [r for r in walk_body(ng.body) if isinstance(r, ast.Return)]
-    cx.require(len(rets) == 1 and U(rets[0].value) == "Not(p) if op else p", ng, "'!' wraps its operand in Not", construct=short(rets[0]) if rets else "?")
+    a = [x for x in walk_body(ng.body) if isinstance(x, ast.Assign) and isinstance(x.targets[0], ast.Tuple) and len(x.targets[0].elts) == 2 and U(x.value) == params(ng)[0]]
+    ok = len(a) == 1
+    if ok:
+        bang, opnd = [U(e) for e in a[0].targets[0].elts]
+        for r in rets:
+            g = guard_texts(r)
+            t = U(r.value)
+            if t == "Not(%s) if %s else %s" % (opnd, bang, opnd) and not g:
+                continue
+            if t == "Not(%s)" % opnd and g == set([(bang, True)]):
+                continue
+            if t == opnd and g == set([(bang, False)]):
+                continue
+            ok = False
+        ok = ok and bool(rets) and any("Not(" in U(r.value) for r in rets)
+    cx.require(ok, ng, "'!' wraps its operand in Not", construct="; ".join(short(r) for r in rets) if rets else "?")
     for cls, want in (("And", "self.left.test(value) and self.right.test(value)"), ("Or", "self.left.test(value) or self.right.test(value)"), ("Not", "not self.pred.test(value)")):
         fn = m.func("%s.test" % cls, "C19.R3")
         rets = [r for r in walk_body(fn.body) if isinstance(r, ast.Return)]
